@@ -158,8 +158,9 @@ def is_noop_call(c: dict, rel) -> bool:
     return False
 
 
-def canon_tree(t):
-    """Comparable form of a model tree / projected real tree."""
+def canon_tree(t, keep_p: bool = False):
+    """Comparable form of a model tree / projected real tree.  keep_p: keep the
+    payload flags of transfers / materializations (trees returned by process())."""
     if isinstance(t, dict):
         k = t.get("k")
         if k == "leaf":
@@ -167,16 +168,18 @@ def canon_tree(t):
         out = {}
         for key, v in t.items():
             if key == "p" and k in ("xfer", "mat", "marker"):
+                if keep_p:
+                    out[key] = bool(v)
                 continue
             if key == "compound" and k == "sel":
                 continue
             if key in ("cols", "common") and isinstance(v, list):
                 out[key] = sorted(v)
             else:
-                out[key] = canon_tree(v)
+                out[key] = canon_tree(v, keep_p)
         return out
     if isinstance(t, list):
-        return [canon_tree(v) for v in t]
+        return [canon_tree(v, keep_p) for v in t]
     return t
 
 
